@@ -1232,6 +1232,27 @@ def check_reportable(ctx):
     dflt = qp.class_attrs.get('classify_strict')
     dv = get_kw(dflt, 'default') if isinstance(dflt, ast.Call) else None
     rep.add('D6', qp.site(dflt), 'queries are non-strict by default', dv is not None and is_const(dv, False), expected='default=False', found=u(dv), stmt='classify_strict default')
+    # query(): the parameters the caller gave are the ones every row is classified with (a default object only replaces a missing one)
+    fq = m.func('gambit.query.query')
+    rep.functions.add(fq.qualname)
+    if 'params' in fq.params():
+        gmq = guard_map(fq.node)
+        rebinds = [s_ for s_ in stmts_in(fq.node.body) if isinstance(s_, (ast.Assign, ast.AnnAssign, ast.AugAssign)) and any(isinstance(t, ast.Name) and t.id == 'params' for tt in (s_.targets if isinstance(s_, ast.Assign) else [s_.target]) for t in ast.walk(tt))]
+        bad = []
+        for s_ in rebinds:
+            at = path_atoms(gmq[s_])
+            v = s_.value
+            if not (isinstance(v, ast.Call) and m.resolve_call(fq, v) == 'gambit.query.QueryParams' and ('is', 'None', 'params') in at):
+                bad.append((u(s_)[:80], sorted(at)))
+        rep.add('D6', fq.site(rebinds[0] if rebinds else None), 'query(): the caller\'s parameters are replaced by defaults only when none were given', not bad, expected='params = QueryParams(**kw) only under `params is None`',
+                found=bad or [u(s_)[:60] for s_ in rebinds] or 'params never rebound', stmt='query params default')
+        uses = [c for c in calls_in(fq.node) if m.resolve_call(fq, c) == 'gambit.query.get_result_item']
+        rep.require(uses, 'query(): no get_result_item call found')
+        pos = fg.params().index('params') if 'params' in fg.params() else 1
+        okp = all(u(get_arg(c, pos, 'params')) == 'params' for c in uses)
+        rep.add('D6', fq.site(uses[0]), 'query(): every row is classified with those parameters', okp, expected='get_result_item(db, params, <row>, <input>)', found=[u(c)[:90] for c in uses], stmt='query params use')
+    else:
+        rep.require(False, 'query(): parameter `params` not found')
 
 
 def check(ctx):
@@ -1286,6 +1307,9 @@ _MERGED = ("\tif strict:\n\t\tmatches = find_matches(zip_strict(ref_genomes, dis
 _NS_SPLIT = ("\tif not strict:\n\t\tif closest_match.matched_taxon is None:\n\t\t\treturn ClassifierResult(success=True, predicted_taxon=None, primary_match=None, closest_match=closest_match)\n"
              "\t\treturn ClassifierResult(success=True, predicted_taxon=closest_match.matched_taxon, primary_match=closest_match, closest_match=closest_match)\n")
 VARIANTS = [
+    V('query() replaces given parameters by defaults (test inverted)', 'B', 'src/gambit/query.py', "\tif params is None:\n\t\tparams = QueryParams(**kw)\n\telif kw:", "\tif params is not None:\n\t\tparams = QueryParams(**kw)\n\telif kw:", 'D6'),
+    V('query() always builds default parameters', 'B', 'src/gambit/query.py', "\tif params is None:\n\t\tparams = QueryParams(**kw)\n\telif kw:", "\tparams = QueryParams(**kw)\n\tif kw:", 'D6'),
+    V('E: guard clause for the default parameters', 'E', 'src/gambit/query.py', "\tif params is None:\n\t\tparams = QueryParams(**kw)\n\telif kw:", "\tif params is None:\n\t\tparams = QueryParams(**kw)\n\tif params is not None and kw and False:"),
     V('GenomeMatch.distance rewritten by a converter (seeded C03c)', 'B', 'src/gambit/classify.py', "\tdistance: float = attrib()\n", "\tdistance: float = attrib(converter=lambda d: float(str(d)))\n", 'D7'),
     V('ClassifierResult rewrites predicted_taxon after construction', 'B', 'src/gambit/classify.py', "\terror: Optional[str] = attrib(default=None, repr=False)\n",
       "\terror: Optional[str] = attrib(default=None, repr=False)\n\n\tdef __attrs_post_init__(self):\n\t\tself.predicted_taxon = self.predicted_taxon if self.success else None\n", 'D7'),
